@@ -876,4 +876,55 @@ theorem detectOffset_error_not_exact :
     (Model.DetectOffset 13#64 5#64).2.1 = 254#8 ∧ (Model.DetectOffset 13#64 5#64).2.2.2 = false := by
   decide +kernel
 
+
+/-! ### more instances (non-vacuity), including the `h = 63` boundary where `2 << 63` wraps to 0 -/
+
+example : Model.ParentMany (encU 63 0 5) (H8 63) (H8 63) = (encU 63 63 (5 / 2 ^ 63), false) :=
+  parentMany_enc (by decide) (by decide) (by decide)
+example : Model.rootPosition (BitVec.ofNat 64 (2 ^ 63)) (H8 63) (H8 63) =
+    encU 63 63 (Spec.rootPos (BitVec.ofNat 64 (2 ^ 63)).toNat 63).2 :=
+  rootPosition_enc (by decide) (by decide) _ (by decide)
+example : Model.inForest (encU 63 62 1) (BitVec.ofNat 64 (2 ^ 63)) (H8 63) =
+    decide ((1 + 1) * 2 ^ 62 ≤ (BitVec.ofNat 64 (2 ^ 63)).toNat) :=
+  inForest_enc (by decide) (by decide) (by decide) _
+example : Model.calcNextPosition (encU 63 0 5) (encU 63 1 3) (H8 63) =
+    (encU 63 1 (removeBitNat 5 1), false) :=
+  calcNextPosition_enc (by decide) (by decide) (by decide) (by decide) (by decide)
+example : Model.isRootPositionTotalRows (encU 4 2 0) 5#64 (H8 4) = Spec.isRootPos 5 (2, 0) :=
+  isRootPositionTotalRows_enc (h := 3) 5#64 (by decide) (by decide) (by decide) (by decide)
+    (by decide) (by decide) (by decide)
+example : Model.isRootPositionOnRowTotalRows (encU 4 2 0) 5#64 2#8 (H8 4) =
+    (decide ((2#8 : U8).toNat = 2) && Spec.isRootPos 5 (2, 0)) :=
+  isRootPositionOnRowTotalRows_enc (h := 3) 5#64 2#8 (by decide) (by decide) (by decide) (by decide)
+    (by decide) (by decide) (by decide)
+example : Model.maxPositionAtRow (H8 2) (H8 3) 5#64 =
+    (BitVec.ofNat 64 (Spec.enc 3 (2, (5#64 : U64).toNat / 2 ^ 2) - 1), false) :=
+  maxPositionAtRow_enc (by decide) (by decide) 5#64 (by decide)
+example : Model.removeBit (Model.addBit 9#64 2#64 true) 2#64 = 9#64 :=
+  removeBit_addBit 9#64 2#64 true (by decide)
+example : Model.calcNextPosition (Model.calcPrevPosition (encU 3 1 3) (encU 3 1 2) (H8 3))
+    (encU 3 1 2) (H8 3) = (encU 3 1 3, false) :=
+  calcNext_calcPrev (r := 0) (by decide) (by decide) (by decide) (by decide) (by decide)
+example : Model.inForest (encU 3 1 1) 5#64 (H8 3) = true ↔
+    ∃ R, 1 ≤ R ∧ (5#64 : U64).toNat.testBit R = true ∧
+      1 / 2 ^ (R - 1) = (Spec.rootPos (5#64 : U64).toNat R).2 :=
+  inForest_iff_below_root (by decide) (by decide) (by decide) 5#64
+/-- slot 5 of a 5-leaf forest: every tree bit of 5 = 101b is set in the slot number: error -/
+example : (Model.DetectOffset 5#64 5#64).2.2.2 = true := by decide +kernel
+example : (Model.DetectOffset (encU 3 0 5) 5#64).2.2.2 = true ↔
+    ∀ t, t ≤ 3 → (5#64 : U64).toNat.testBit t = true → (5 * 2 ^ 0).testBit t = true :=
+  detectOffset_error_iff 5#64 (by decide) (by decide) (by decide) (by decide)
+/-- slot 6 of a 5-leaf forest (outside the forest): caught by the tree on row 0 -/
+example : Model.DetectOffset (encU 3 0 6) 5#64 =
+    (BitVec.ofNat 8 ((Spec.treeRows (5#64 : U64).toNat).idxOf 0), H8 0 - H8 0,
+      ~~~((encU 3 0 6 - BitVec.ofNat 64 (Spec.treeStart (5#64 : U64).toNat 0)) ^^^ 1#64), false) :=
+  detectOffset_general (R := 0) 5#64 (by decide) (by decide) (by decide) (by decide) (by decide)
+    (by decide) (by decide) (by
+      intro t h1 h2 hb
+      have : t = 1 ∨ t = 2 ∨ t = 3 := by omega
+      rcases this with rfl | rfl | rfl
+      · exact absurd hb (by decide)
+      · decide
+      · exact absurd hb (by decide))
+
 end UtreexoVerif.Props.C16
